@@ -31,7 +31,7 @@ _re_ident = re.compile(r'''(?x)
 _re_ident_or_num = re.compile(r'''(?x)
     [^\W\d]\w*  # alphanumeric identifier
     |
-    ([1-9]\d* | 0)  # purely integer identifier
+    ([1-9][0-9]* | 0)  # purely integer identifier
 ''')
 
 
@@ -94,6 +94,11 @@ def needs_quoting(string: str, allow_reserved: bool, allow_num: bool) -> bool:
 
     r = _re_ident_or_num if allow_num else _re_ident
     isalnum = r.fullmatch(string)
+    if isalnum and not string[0].isascii() and string[0].isnumeric():
+        # `\w` also matches numeric characters that are not decimal
+        # digits (e.g. superscripts, fractions); the lexer does not accept
+        # those at the start of a bare identifier
+        isalnum = None
 
     string = string.lower()
 
